@@ -518,6 +518,11 @@ structure Input where
                              -- "ancestor-link" / "ancestor-real" (a directory above it is); "-link": an in-root
                              -- source is spelled through the link like the root, "-real": through the real path.
                              -- No influence on the model: paths are compared after resolving links.
+  spelling : String          -- how the sources of the install operations are spelled: "canonical", "slash" (directory
+                             -- with a trailing /), "dot" (base/./x), "dslash" (base//x), "dotdot" (base/zz/../x),
+                             -- "relative" (to the working directory). No influence on the model.
+  relRoot : Bool             -- the manager is given the plugin root as a path relative to the working directory.
+                             -- No influence on the model.
   ops : List Op
   v : Text
   w : Text
